@@ -268,7 +268,8 @@ class Pwalk(ListPattern):
     # // random walk pattern - hjh - jamshark70@gmail.com
     def __init__(self, lst, steps=None, directions=1, start=0):
         super().__init__(lst)
-        self.steps = steps or Prand([-1, 1], float('inf'))
+        self.steps = (
+            Prand([-1, 1], float('inf')) if steps is None else steps)
         self.directions = 1 if directions is None else directions
         self.start = start
 
